@@ -67,9 +67,12 @@ Theorem C16_noise_dim d (T q : F) num zs :
 Proof. exact: wna_noise_sample_spec. Qed.
 
 (* the sample W = L Z is a linear image of the draws: W W^T = L (Z Z^T) L^T = Q when
-   Z Z^T = I (the algebraic form of E[Z Z^T] = I), L the factor of the LDLT oracle *)
+   Z Z^T = I (the algebraic form of E[Z Z^T] = I) and the factor the oracle returned for THIS
+   matrix satisfies its contract L L^T = Q (Q is SPD by C16_Q_spd, so the contract applies;
+   C16_factor_exists exhibits such an L in every real closed field) *)
 Theorem C16_noise_cov d (T q : F) num zs :
-  (forall n (P : 'M[F]_n), spd P -> sq n P *m (sq n P)^T = P) -> 0 < T -> 0 < q ->
+  let L : 'M[F]_(dim_n d) := wna_sqrtQ (O:=O) d T q in
+  L *m L^T = wna_Q (O:=O) d T q ->
   let Z : 'M[F]_(dim_n d, num) := fill_colmajor (O:=O) (dim_n d) num zs in
   let W : 'M[F]_(dim_n d, num) := (wna_noise_sample (O:=O) d T q num zs).1 in
   Z *m Z^T = 1%:M -> W *m W^T = wna_Q (O:=O) d T q.
@@ -107,14 +110,42 @@ Theorem C16_selector_matrix n (idxs : list nat) rr rc (R : 'M[F]_(rr, rc)) H R' 
   mget (H : M O (length idxs) n) a b = if b == List.nth a idxs 0%N then 1 else 0.
 Proof. exact: linear_model_H. Qed.
 
+(* the sensor's noise: R is exposed unchanged, sqrt_R is the oracle's factor of R, and under the
+   factor's contract on R a sample W = sqrt_R Z has W W^T = R when Z Z^T = I; freeze() adds the
+   one-column sample (C16_sensor_freeze) *)
+Theorem C16_sensor_noise_cov n (idxs : list nat) m (R : 'M[F]_m) H R' (L : 'M[F]_m) num zs :
+  linear_model_ctor (O:=O) n idxs R = inr (H, R', L) ->
+  R' = R /\ L = sq m R /\
+  (L *m L^T = R ->
+   let Z : 'M[F]_(m, num) := fill_colmajor (O:=O) m num zs in
+   let W : 'M[F]_(m, num) := (noise_sample (O:=O) L num zs).1 in
+   Z *m Z^T = 1%:M -> W *m W^T = R).
+Proof. exact: linear_model_noise_cov. Qed.
+
+(* SimulatedLinearSensor's descriptions: input = state description + |R| noise components;
+   measurement = (number of measured components below linear_size, number at or above it) *)
+Theorem C16_sensor_descriptions n (idxs : list nat) (H : 'M[F]_(length idxs, n)) sd nr :
+  Forall (fun c => (c < n)%coq_nat) idxs ->
+  (forall a b, (a < length idxs)%N -> (b < n)%N -> mget (H : M O (length idxs) n) a b = if b == List.nth a idxs 0%N then 1 else 0) ->
+  sensor_descriptions (O:=O) H sd nr =
+  (mkDesc (d_lin sd) (d_circ sd) (d_noise sd + nr)%coq_nat,
+   mkDesc (length (List.filter (fun c => Nat.ltb c (d_lin sd)) idxs))
+          (length (List.filter (fun c => negb (Nat.ltb c (d_lin sd))) idxs)) 0).
+Proof. exact: sensor_descriptions_selector. Qed.
+
 (* ---- grid initialiser ---- *)
 
 Theorem C16_grid_refusal xinf xsup yinf ysup nx ny np (st : 'M[F]_(4, np)) (w : 'cV[F]_np) :
   grid_initialize (O:=O) xinf xsup yinf ysup nx ny st w = None <-> np <> (nx * ny)%N.
 Proof. exact: grid_refusal. Qed.
 
+(* for grids of at least 2 x 2 points (the property's domain; then no denominator vanishes).
+   With nx = 1 or ny = 1 the code computes 0/0 * 0 = NaN: that case is covered by the
+   correspondence check only *)
 Theorem C16_grid_positions xinf xsup yinf ysup nx ny np (st : 'M[F]_(4, np)) (w : 'cV[F]_np) st' w' :
+  (2 <= nx)%N -> (2 <= ny)%N ->
   grid_initialize (O:=O) xinf xsup yinf ysup nx ny st w = Some (st', w') ->
+  (nx%:R - 1 != 0 :> F) /\ (ny%:R - 1 != 0 :> F) /\
   forall i j r, (i < nx)%N -> (j < ny)%N -> (r < 4)%N ->
     mget (st' : M O 4 np) r (i * ny + j) =
     match r with
@@ -139,6 +170,15 @@ Theorem C16_grid_overwrites xinf xsup yinf ysup nx ny np (st st2 : 'M[F]_(4, np)
 Proof. exact: grid_overwrites. Qed.
 
 End C16.
+
+(* non-vacuity of the local premise of C16_noise_cov: in every real closed field the block-diagonal
+   Cholesky factor is a factor of Q.  (Over the rationals no factor exists for any T, q, Dim:
+   det Q = (q^2 T^4 / 12)^k is not a rational square for k odd, and for k = 2 the Hasse invariant
+   at 3 differs from that of the identity form - so no rational Example can exhibit one.) *)
+Theorem C16_factor_exists (R : rcfType) (tr : Transc R) sq eg d (T q : R) : 0 < T -> 0 < q ->
+  let L : 'M[R]_(dim_n d) := blocks (O:=MxMat tr sq eg) d (chol2 T q) in
+  L *m L^T = wna_Q (O:=MxMat tr sq eg) d T q.
+Proof. exact: wna_factor_exists. Qed.
 
 (* ---- constructors, trajectory, sensor: for every arithmetic instance ---- *)
 Local Close Scope ring_scope.
@@ -332,6 +372,23 @@ Example C16_concrete_selector :
   /\ @linear_model_ctor QM 4 [:: 0; 4; 7]%N 3 3 [:: [:: (1#1); (0#1); (0#1)]; [:: (0#1); (1#1); (0#1)]; [:: (0#1); (0#1); (1#1)]]%Q = inl (ErrIndex 1 4).
 Proof. vm_compute. split; reflexivity. Qed.
 
+(* the sensor's sampling with an explicit rational factor: R = [4 2; 2 5] = L L^T, L = [2 0; 1 2]
+   (the oracle returns L); with Z = I (draws 1 0 0 1, column-major) the sample W = L and W W^T = R;
+   the descriptions of a sensor measuring components (0, 2) of a 4-state model are (4+2, 2) *)
+Definition QML := ListMat QOps (fun _ _ => [:: [:: (2#1); (0#1)]; [:: (1#1); (2#1)]]%Q) (fun _ A => A).
+Example C16_concrete_sensor_noise :
+  match @linear_model_ctor QML 4 [:: 0; 2]%N 2 2 [:: [:: (4#1); (2#1)]; [:: (2#1); (5#1)]]%Q with
+  | inr (H, R', L) =>
+      let W := fst (@noise_sample QML 2 L 2 [:: (1#1); (0#1); (0#1); (1#1)]%Q) in
+      qmx_eqb (@mmul QML 2 2 2 L (@mtr QML 2 2 L)) R'
+      && qmx_eqb (@mmul QML 2 2 2 W (@mtr QML 2 2 W)) [:: [:: (4#1); (2#1)]; [:: (2#1); (5#1)]]%Q
+      && (match @sensor_descriptions QML 2 4 H (mkDesc 4 0 0) 2 with
+          | (inp, meas) => Nat.eqb (desc_total inp) 6 && Nat.eqb (d_lin meas) 2 && Nat.eqb (d_circ meas) 0
+          end) = true
+  | inl _ => False
+  end.
+Proof. vm_compute. reflexivity. Qed.
+
 (* a 2 x 3 grid over [-1, 3] x [2, 5]: accepted with 6 particles, refused with 5 *)
 Example C16_concrete_grid :
   match @grid_initialize QM (-1#1)%Q (3#1)%Q (2#1)%Q (5#1)%Q 2 3 6
@@ -356,11 +413,14 @@ Print Assumptions C16_motion.
 Print Assumptions C16_transition_density.
 Print Assumptions C16_trajectory_wna.
 Print Assumptions C16_selector_matrix.
+Print Assumptions C16_sensor_noise_cov.
+Print Assumptions C16_sensor_descriptions.
 Print Assumptions C16_grid_refusal.
 Print Assumptions C16_grid_positions.
 Print Assumptions C16_grid_spans.
 Print Assumptions C16_grid_weights.
 Print Assumptions C16_grid_overwrites.
+Print Assumptions C16_factor_exists.
 Print Assumptions C16_lti_state_ctor_validation.
 Print Assumptions C16_lti_meas_ctor_validation.
 Print Assumptions C16_selector_ctor_validation.
